@@ -108,8 +108,15 @@ impl<'t, D: Doc> Aggregator<'t, D> for Cow<'_, MetaVarEnv<'t, D>> {
   ) -> Option<()> {
     if let Some(var) = var {
       let mut matched = nodes;
-      let skipped = matched.len().saturating_sub(skipped_anonymous);
-      drop(matched.drain(skipped..));
+      // the tokens written after the ellipsis in the pattern, e.g. a trailing `,`, were
+      // collected as well when the code has them. Only those are given back: the code need
+      // not have them, and a named node always belongs to the ellipsis
+      for _ in 0..skipped_anonymous {
+        if matched.last().is_some_and(|n| n.is_named()) {
+          break;
+        }
+        matched.pop();
+      }
       self.to_mut().insert_multi(var, matched)?;
     }
     Some(())
